@@ -43,7 +43,11 @@ Receiver == Repo(RecvRefs)
 
 Specs ==
   {[src |-> "heads/main", dst |-> IF op = "fetch" THEN "remotes/origin/main" ELSE "heads/main", force |-> f1]}
-  \cup (IF tspec = "none" THEN {} ELSE {[src |-> "tags/v1", dst |-> "tags/v1", force |-> tspec = "force"]})
+  \* "cross": the tag on the receiving side is fed from the BRANCH of the sending side (what counts is what the
+  \* destination is: an existing tag is not replaced without force, whatever the source is called)
+  \cup (IF tspec = "none" THEN {}
+        ELSE IF tspec = "cross" THEN {[src |-> "heads/main", dst |-> "tags/v1", force |-> FALSE]}
+        ELSE {[src |-> "tags/v1", dst |-> "tags/v1", force |-> tspec = "force"]})
   \cup (IF Twin THEN {[src |-> "heads/twin", dst |-> IF op = "fetch" THEN "remotes/origin/twin" ELSE "heads/twin", force |-> FALSE]}
         ELSE {})
 
@@ -76,7 +80,10 @@ Next == MergeNext \/
         /\ phase = "pick" /\ phase' = "done"
         /\ ts' \in TagSrc /\ td' \in TagDst /\ tspec' \in TagSpecs
         /\ depth' \in (IF op = "fetch" THEN Depths ELSE {0})
-        /\ (op = "push" /\ ts' = None) => tspec' = "none"   \* pushing a ref one does not have is a usage error
+        /\ (op = "push" /\ ts' = None) => tspec' \in {"none", "cross"}   \* pushing a ref one does not have is a usage error
+        \* (with "cross" the sending side has no tag of that name: two sources for one destination is not a case
+        \*  the statement speaks about)
+        /\ tspec' = "cross" => ts' = None
         \* the second branch only where no tag is involved (keeps the universe small)
         /\ tw' \in (IF ts' = None /\ td' = None /\ tspec' = "none" THEN TwinDst ELSE {None})
         /\ UNCHANGED <<op, bs, bd, f1, gforce>>
